@@ -67,6 +67,7 @@ Ltac binop_contra Hc :=
 
 Ltac def_contra Hc :=
   match type of Hc with context [if (Nat.ltb ?c ?s && ?r) then _ else _] => destruct (Nat.ltb c s && r); [|discriminate] end;
+  match type of Hc with context [no_pv ?ps] => destruct (no_pv ps); [|discriminate] end;
   dcomp; len_contra' Hc.
 (* the code of a call: opcall pc (no argument) | load y; callpc (a filter parameter) | at least 3 instructions *)
 Ltac callf_inv Hc :=
@@ -216,19 +217,24 @@ Proof.
   split; [reflexivity|]. split; [exact Ea|]. split; reflexivity.
 Qed.
 
-Lemma comp_def_inv : forall f body rest ce cur pc nv sn cq nv' sn',
-  comp (QDef f [] body rest) ce cur pc nv sn = Some (cq, nv', sn') ->
-  cur < sn /\ ce_lt ce sn = true /\ exists cb nvb s1 cr,
-    comp body (fun_env (add_fun ce f (S pc))) sn (pc + 2) 0 (S sn) = Some (cb, nvb, s1) /\
-    comp rest (add_fun ce f (S pc)) cur (pc + 2 + length cb + 1) nv s1 = Some (cr, nv', sn') /\
-    cq = Ijump (pc + 2 + length cb + 1) :: Iscope sn nvb 0 :: cb ++ Iret :: cr.
+Lemma comp_def_inv : forall f ps body rest ce cur pc nv sn cq nv' sn',
+  comp (QDef f ps body rest) ce cur pc nv sn = Some (cq, nv', sn') ->
+  cur < sn /\ ce_lt ce sn = true /\ no_pv ps = true /\ exists cb nvb s1 cr,
+    let ce' := add_fun ce f (S pc) (length ps) in
+    let pre := prelude sn ps in
+    comp body (add_env (fun_env ce') (param_env sn ps)) sn (pc + 2 + length pre) (param_slots ps) (S sn) = Some (cb, nvb, s1) /\
+    comp rest ce' cur (pc + 2 + length pre + length cb + 1) nv s1 = Some (cr, nv', sn') /\
+    cq = Ijump (pc + 2 + length pre + length cb + 1) :: Iscope sn nvb (length ps) :: pre ++ cb ++ Iret :: cr.
 Proof.
-  intros f body rest ce cur pc nv sn cq nv' sn' Hc. cbn -[Nat.add Nat.ltb ce_lt] in Hc.
+  intros f ps body rest ce cur pc nv sn cq nv' sn' Hc. cbn -[Nat.add Nat.ltb ce_lt prelude param_env param_slots no_pv] in Hc.
   destruct (Nat.ltb_spec cur sn) as [Hlt|]; [|discriminate]. split; [exact Hlt|].
   destruct (ce_lt ce sn) eqn:Hce; [|discriminate]. split; [reflexivity|]. cbn [andb] in Hc.
-  destruct (comp body (fun_env (add_fun ce f (S pc))) sn (pc + 2) 0 (S sn)) as [[[cb nvb] s1]|] eqn:Eb; [|discriminate].
-  destruct (comp rest (add_fun ce f (S pc)) cur (pc + 2 + length cb + 1) nv s1) as [[[cr nv2] s2]|] eqn:Er; [|discriminate].
-  inversion Hc; subst. exists cb, nvb, s1, cr. auto.
+  destruct (no_pv ps) eqn:Hpv; [|discriminate]. split; [reflexivity|].
+  match type of Hc with context [comp body ?ce0 ?c0 ?p0 ?n0 ?s0] =>
+    destruct (comp body ce0 c0 p0 n0 s0) as [[[cb nvb] s1]|] eqn:Eb; [|discriminate] end.
+  match type of Hc with context [comp rest ?ce0 ?c0 ?p0 ?n0 ?s0] =>
+    destruct (comp rest ce0 c0 p0 n0 s0) as [[[cr nv2] s2]|] eqn:Er; [|discriminate] end.
+  inversion Hc; subst. exists cb, nvb, s1, cr. cbv zeta. auto.
 Qed.
 
 End S.
